@@ -79,6 +79,7 @@ package store
 //@ iface (repo Repo) IndexInsert(desc types.Descriptor, opts []types.IndexOpt) (err error)
 //@   -- the content an index entry points to is stored first (C09): the last BlobCreate reported "exists" or the last Close succeeded
 //@   requires [blob-before-index]{C09} blobReady()
+//@   requires [one-kind]{C18} types.tagOf(desc) == "" || types.subjOf(desc) == ""
 //@   modifies ghost(fault), ghost(mutations), alloc, ghost(fswrites)
 //@   ensures [fs-policy]{C14} !fsWritable() ==> fswrites() == old(fswrites())
 //@   ensures [ok] err == nil ==> mutations() == old(mutations()) + 1
@@ -272,6 +273,7 @@ package store
 //@ -- the cleanup of a cached repository: collection only when the store is writable
 //@ func NewDir$1(key string, dr *dirRepo) (err error)
 //@   requires invariant [dir-store-conf] dr != nil && dr.conf.Storage.ReadOnly == roPtr() && roPtr() != nil && (fsWritable() <==> !*roPtr())
+//@   requires invariant [uploads-cache] uploadsInv(dr.uploads)
 
 //@ func NewDir(conf config.Config, opts []Opts) (st Store)
 //@   requires [conf-defaulted]{C15} config.defaulted(conf)
@@ -404,3 +406,51 @@ package store
 
 //@ func (dr *dirRepo) gc$2() (err error)
 //@   assert [saves-the-collected-index]{C10} before "dr.indexSave(true)": dr.index.Manifests == i.Manifests && dr.index.Annotations == i.Annotations
+
+
+//@ -- ------------------------------------------------------------------
+//@ -- Object invariants of the repository objects that carry C18 / C20 across the store boundary: the index a repository
+//@ -- keeps is well-formed, its upload cache satisfies the cache invariant.  Assumed where a method is entered (through
+//@ -- the interface), re-established by every method.  The one place where it cannot be proved is where an index is read
+//@ -- from disk (dirRepo.indexLoad, memRepo.repoInit): that an index.json found on disk is well-formed is an assumption
+//@ -- about the directory, and stays open there.
+//@ pred uploadsInv(c) := c != nil && cache.cacheInv(c) && !held(c.mu)
+
+//@ funcs memRepo.IndexGet memRepo.IndexInsert memRepo.IndexRemove memRepo.BlobSession memRepo.blobCreate memRepo.BlobCreate
+//@   requires invariant [index-wf] types.wfIndex(recv.index)
+//@   requires invariant [uploads-cache] uploadsInv(recv.uploads)
+//@   ensures [index-wf-kept]{C18} types.wfIndex(recv.index)
+//@   ensures [uploads-cache-kept]{C20} uploadsInv(recv.uploads)
+
+//@ funcs dirRepo.repoInit dirRepo.indexSave dirRepo.indexLoad
+//@   ensures [other-locks-untouched] forall m: Ref :: m != mutexAddr(recv.mu) ==> (heldAt(m) <==> old(heldAt(m)))
+
+//@ funcs dirRepo.IndexInsert dirRepo.IndexRemove dirRepo.BlobSession dirRepo.blobCreate dirRepo.BlobCreate dirRepo.indexLoad
+//@   requires invariant [index-wf] types.wfIndex(recv.index)
+//@   requires invariant [uploads-cache] uploadsInv(recv.uploads)
+//@   ensures [uploads-cache-kept]{C20} uploadsInv(recv.uploads)
+
+//@ funcs memRepoUpload.Write memRepoUpload.Close memRepoUpload.Cancel
+//@   requires invariant [uploads-cache] uploadsInv(recv.mr.uploads)
+
+//@ funcs dirRepoUpload.Write dirRepoUpload.Close dirRepoUpload.Cancel
+//@   requires invariant [uploads-cache] uploadsInv(recv.dr.uploads)
+
+//@ -- what the caller hands to IndexInsert is a descriptor of one kind whose annotation map it owns
+//@ func (mr *memRepo) IndexInsert(desc types.Descriptor, opts []types.IndexOpt) (err error)
+//@   requires [one-kind]{C18} types.tagOf(desc) == "" || types.subjOf(desc) == ""
+//@   requires invariant [annotations-owned-by-caller] types.addNoAlias(mr.index, desc)
+
+//@ func (dr *dirRepo) IndexInsert(desc types.Descriptor, opts []types.IndexOpt) (err error)
+//@   requires [one-kind]{C18} types.tagOf(desc) == "" || types.subjOf(desc) == ""
+//@   requires invariant [annotations-owned-by-caller] types.addNoAlias(dr.index, desc)
+
+//@ -- the index read from disk is taken to be well-formed (see above): stated, open
+//@ func (dr *dirRepo) indexLoad(force bool, locked bool) (err error)
+//@   ensures [loaded-index-wf]{C18} types.wfIndex(dr.index)
+
+//@ funcs dir.RepoGet dir.Close dir.gc
+//@   requires invariant [repos-cache] uploadsInv(recv.repos)
+
+//@ funcs dirRepo.gc
+//@   requires invariant [uploads-cache] uploadsInv(recv.uploads)
